@@ -260,14 +260,14 @@ PROPS = {
         "harness": "c13", "driver": "c11", "driver_args": ["C13"], "shards": 16,
         "classify": stream_class,
         "nontrivial": lambda cls: "resume" in cls["features"],
-        "rule": "cases = every sequence of length 4 (quick) / 5 (thorough) over a 16-symbol alphabet of contiguous pushes (logical lengths 0..2, wire overhead 0..1), resumes at offsets 0..3 (current and wrong file; each followed by a replay query), advance, cancel, reconnect poll, ack, send, for ring capacities 0, 2 and 5, plus random long histories with capacities 0..4096; distinct = distinct history; non-trivial = a resume was decided (accepted or refused) in it Re-entrant broadcasts: R:<b> makes every notified sink remove peer b during the broadcast; raw broadcasts tagged Utf8/Json carry bytes that are not valid text; sinks of peers with id%3=2 report is_connected()=false; concurrent cases include directed get_by duels (a key that always addresses a present peer is moved and its old owner removed while readers look it up).",
+        "rule": "cases = every sequence of length 4 (quick) / 5 (thorough) over a 16-symbol alphabet of contiguous pushes (logical lengths 0..2, wire overhead 0..1), resumes at offsets 0..3 (current and wrong file; each followed by a replay query), advance, cancel, reconnect poll, ack, send, for ring capacities 0, 2 and 5, plus random long histories with capacities 0..4096; distinct = distinct history; non-trivial = a resume was decided (accepted or refused) in it",
         "timeout_s": {"quick": 600, "thorough": 3000},
     },
     "C18": {
         "harness": "c18", "driver": "c18", "shards": 16,
         "classify": c18_class,
         "nontrivial": lambda cls: cls["alias_attached"] == "True",
-        "rule": "cases = every sequence of length 4 (quick) / 5 (thorough) over insert/remove/alias/broadcast on 3 peers x 3 keys (16 symbols), the same alphabet to depth 3/4 after a prefix that attaches three aliases, every re-entrant alias (an operation performed during the alias call's key conversion) after every short history, and random histories up to 300 ops over up to 6 peers x 6 keys; after every operation the full observable state (get, get_by, aliases_for, key_for, len) is recorded; plus concurrent histories (750 quick / 7500 thorough: 2-4 threads x 1-4 operations from insert/remove/alias/broadcast and the queries get/get_by/aliases_for/key_for/len on one shared registry, one third random contended mixes and two thirds round-synchronised duels of alias against remove/re-insert of the same peer, half of them with a slow key conversion), every operation stamped with a global logical clock at invocation and response; the driver searches (Wing-Gong, state-memoised) for an order respecting real time whose results under the extracted specification equal every observed result and whose final state equals the observed final state; distinct = distinct history; non-trivial = at least one alias was attached",
+        "rule": "cases = every sequence of length 4 (quick) / 5 (thorough) over insert/remove/alias/broadcast on 3 peers x 3 keys (16 symbols), the same alphabet to depth 3/4 after a prefix that attaches three aliases, every re-entrant alias (an operation performed during the alias call's key conversion) after every short history, and random histories up to 300 ops over up to 6 peers x 6 keys; after every operation the full observable state (get, get_by, aliases_for, key_for, len) is recorded; plus concurrent histories (750 quick / 7500 thorough: 2-4 threads x 1-4 operations from insert/remove/alias/broadcast and the queries get/get_by/aliases_for/key_for/len on one shared registry, one third random contended mixes and two thirds round-synchronised duels of alias against remove/re-insert of the same peer, half of them with a slow key conversion), every operation stamped with a global logical clock at invocation and response; the driver searches (Wing-Gong, state-memoised) for an order respecting real time whose results under the extracted specification equal every observed result and whose final state equals the observed final state; distinct = distinct history; non-trivial = at least one alias was attached rounds=<n> (17 cases): the same concurrent history n times, every round on a fresh registry brought to the same state by pre, the threads released together by a spinning gate, every round judged like any concurrent history (first failing round reported): 13 one-shot duels of 400 (quick) / 1000 (thorough) rounds - 2, 3 and 4 callers removing the SAME peer at the same instant (with one or two aliases attached, beside get/len/get_by/aliases_for/key_for queries and a broadcast, and round-synchronised against remove/re-insert of that peer), alias (plain and slow key) against remove, two aliases of one key against a re-pointing, re-pointing against remove and lookup; the results of remove are part of the history, so an insertion removed twice has no order - and 4 migrations of 60 / 150 rounds: one thread moves a key to the other present peer, removes and re-inserts the previous owner and moves the key back, 16 times, while 3-5 free-running readers make 64 get_by lookups each (the key addresses a present peer at every moment, so a lookup that finds nobody has no place in any order). Re-entrant broadcasts: R:<b> makes every notified sink remove peer b during the broadcast; raw broadcasts tagged Utf8/Json carry bytes that are not valid text; sinks of peers with id%3=2 report is_connected()=false; concurrent cases include directed get_by duels (a key that always addresses a present peer is moved and its old owner removed while readers look it up).",
         "timeout_s": {"quick": 600, "thorough": 3000},
     },
     "C19": {
@@ -281,7 +281,7 @@ PROPS = {
         "harness": "c17", "driver": "c17", "shards": 2, "harness_shards": 8,
         "classify": c17_class,
         "nontrivial": lambda cls: cls["limit"] != "-",
-        "rule": "cases = for each assumed peer frame limit in {1 KiB, 4 KiB, 64 KiB, 1 MiB, (16 MiB thorough), none} and each of the 7 outbound paths (inline response, off-reader response, handler-pushed notify, registry broadcast, proxy-forwarded response, client request, client notify): frame sizes limit-2..limit+2 plus random sizes up to twice the limit, each on a fresh live WebSocket server / proxy / client with a raw tungstenite peer recording message sizes, the on_error hook counted, and a follow-up exchange for liveness; distinct = distinct case; non-trivial = a limit is configured The endpoint's own inbound thresholds vary (defaults, none, 512 bytes); response paths also carry handler errors around the limit; inline responses are also queued behind a backlog of 40 small notifications (burst=1). Arrangements of the same abstract cases: pipe=1 (handler-pushed notify): one write carries a request with a small reply and the notify-request whose handler pushes the notify under test, server and peer on one thread so the writer finds [small reply, notify] queued together; nothing else is sent until the small reply has arrived (10 s), otherwise alive=0. quit=1 (handler-pushed notify): the connection is served through serve_connection_with_cancel and the handler queues the notify, cancels the ShutdownToken and answers; alive = the earlier small exchange and the handler's own small reply both reached the peer unchanged before the close frame; the scenario is performed 12 times on fresh servers and all rounds must be observed alike. conc=K reps=M (inline response, handler-pushed notify): K connections of one server perform M exchanges each at the same time (first half of the rounds started together), with an error hook that formats the event and appends it to a shared log; all K*M instances must show the same message (or none), and a report for each or for none (rep=mixed is a violation, driver-level clause). park=1 (client request, client notify): the message under test is built from a value whose serialisation parks after the caller took its request id, while a second call is started and held unanswered by the raw server; after the first call was sent or refused a third small call must succeed and the held call must complete (alive).",
+        "rule": "cases = for each assumed peer frame limit in {1 KiB, 4 KiB, 64 KiB, 1 MiB, (16 MiB thorough), none} and each of the 7 outbound paths (inline response, off-reader response, handler-pushed notify, registry broadcast, proxy-forwarded response, client request, client notify): frame sizes limit-2..limit+2 plus random sizes up to twice the limit, each on a fresh live WebSocket server / proxy / client with a raw tungstenite peer recording message sizes, the on_error hook counted, and a follow-up exchange for liveness; distinct = distinct case; non-trivial = a limit is configured The endpoint's own inbound thresholds vary (defaults, none, 512 bytes); response paths also carry handler errors around the limit; inline responses are also queued behind a backlog of 40 small notifications (burst=1). Arrangements of the same abstract cases: pipe=1 (handler-pushed notify): one write carries a request with a small reply and the notify-request whose handler pushes the notify under test, server and peer on one thread so the writer finds [small reply, notify] queued together; nothing else is sent until the small reply has arrived (10 s), otherwise alive=0. quit=1 (handler-pushed notify): the connection is served through serve_connection_with_cancel and the handler queues the notify, cancels the ShutdownToken and answers; alive = the earlier small exchange and the handler's own small reply both reached the peer unchanged before the close frame; the scenario is performed 12 times on fresh servers and all rounds must be observed alike. conc=K reps=M (inline response, handler-pushed notify): K connections of one server perform M exchanges each at the same time (first half of the rounds started together), with an error hook that formats the event and appends it to a shared log; all K*M instances must show the same message (or none), and a report for each or for none (rep=mixed is a violation, driver-level clause). park=1 (client request, client notify): the message under test is built from a value whose serialisation parks after the caller took its request id, while a second call is started and held unanswered by the raw server; after the first call was sent or refused a third small call must succeed and the held call must complete (alive). hist=N hlen=H (handler-pushed notify, registry broadcast): before the notify under test the same connection carries N notifies of H bytes each, one at a time, each followed by a small exchange so that the outbound queue is drained (70 refused ones of 1 MiB, 320 refused ones of limit+1, 32 delivered ones at the limit); the accepted ones must all have been dropped and reported (H above the limit) or delivered unchanged and unreported, the reports counted for the notify under test are those after the history, and a notify under test that the connection refuses to queue is observed as nothing sent (same model and oracle). upfail=K qlen=Q (proxy): the upstream is a raw TCP listener that closes the connection after reading the request header (1), the whole request (2), the request and writing 20 bytes of a response (3), or at once (4), while a request with a query of 8, limit-100, limit-48, limit+1 or 2*limit bytes is in flight; the raw downstream peer records every binary message until the connection ends; the model is not applied, driver-level clause: no binary message larger than the limit was sent downstream.",
         "timeout_s": {"quick": 900, "thorough": 3400},
     },
     "C07": {
@@ -295,7 +295,7 @@ PROPS = {
         "harness": "c10", "driver": "c10", "shards": 8, "harness_shards": 8,
         "classify": c10_class,
         "nontrivial": lambda cls: cls["fault"] != "none",
-        "rule": "cases = small streams (stream length x chunk size incl. empty, single chunk, exact multiple) x both compressions x every puller (pull_to_file, pull_to_beve_file, pull_to_beve_zst_file, pull_to_file_trailer_verified, pull_to_file_async / _verified_async / _trailer_verified_async over AsyncClient and WebSocketClient): no fault, connection cut after the j-th next response for every j (frame-counting TCP proxy), producer io::Error after k bytes for k = 0, end and every chunk boundary +-1, rejecting verifier; trailer lengths around chunk size and stream length (both TrailerHold branches, longer than the stream); pull_value / pull_value_async under every cut and producer failure; child process aborted by the verif-hooks callback at the n-th hit of each of the 6 probe points; destination absent or pre-existing, stale .svspart present or not; distinct = distinct case line; non-trivial = a fault was injected Also fault=trunc on the decompressing file puller: a proxy halves the final chunk of a compressed stream but lets the end-of-stream flag through (judged by the extracted oracle alone: no file, no temp file, no success). pp=1 on every third producer-failure case: the body writer panics after k bytes instead of returning an error (same expectation: the pull fails, nothing is published).",
+        "rule": "cases = small streams (stream length x chunk size incl. empty, single chunk, exact multiple) x both compressions x every puller (pull_to_file, pull_to_beve_file, pull_to_beve_zst_file, pull_to_file_trailer_verified, pull_to_file_async / _verified_async / _trailer_verified_async over AsyncClient and WebSocketClient): no fault, connection cut after the j-th next response for every j (frame-counting TCP proxy), producer io::Error after k bytes for k = 0, end and every chunk boundary +-1, rejecting verifier; trailer lengths around chunk size and stream length (both TrailerHold branches, longer than the stream); pull_value / pull_value_async under every cut and producer failure; child process aborted by the verif-hooks callback at the n-th hit of each of the 6 probe points; destination absent or pre-existing, stale .svspart present or not; distinct = distinct case line; non-trivial = a fault was injected Also fault=trunc on the decompressing file puller: a proxy halves the final chunk of a compressed stream but lets the end-of-stream flag through (judged by the extracted oracle alone: no file, no temp file, no success). pp=1 on every third producer-failure case: the body writer panics after k bytes instead of returning an error (same expectation: the pull fails, nothing is published). fault=drop:k how=sel|abort (pull_to_file_async / _verified_async / _trailer_verified_async over AsyncClient and WebSocketClient, destination absent or pre-existing, both compressions): the producer writes k bytes and stalls; once it is parked and the deliverable chunks have reached the temp file the pull FUTURE is dropped (the other branch of a select! completes and the client lives on, or the task owning client and pull is aborted); the directory is looked at after the detached decoder had time to wind down (300 ms, then until the temp sibling is gone, then 200 ms); judged by the extracted oracle alone as a failed pull: destination unchanged, no temp file.",
         "timeout_s": {"quick": 600, "thorough": 3000},
     },
     "C12": {
@@ -316,7 +316,7 @@ PROPS = {
         "harness": "c09", "driver": "c09", "shards": 8, "harness_shards": 8,
         "classify": c09_class,
         "nontrivial": lambda cls: cls["chunks"] != "1" or cls["failure"] != "none",
-        "rule": "real sync-TCP and WebSocket servers, one SVS producer per (kind, element type, chunk_bytes, session_depth, compression); byte producers (reader, writer): payload lengths 0..3n+1 for n in {1,2,3,7,8}, all boundary residues k*n-1, k*n, k*n+1 for n in {64, 4096} (+65536, 1 MiB thorough), depths 0..3 (quick) / 0..8 (thorough), both compressions; every split of tiny payloads into <=3 writes plus random segmentations incl. zero-length and over-long writes; failure injected at 0, 1, L and every chunk boundary +-1, each both as an io::Error returned by the body writer / reader and as a panic of that application code on the producer thread; random sleeps in producer and consumer; BEVE producers (serde value, typed arrays, complex array) around the same boundaries; pullers blocking / async / WebSocket; per case: raw peer open, next until last or error, one more next; second stream with cancel then next; pull_to_vec / pull_value / pull_typed_slice / pull_complex_slice re-encoded; for zstd the harness decompresses the pulled bodies itself; distinct = distinct case line; non-trivial = not a single-chunk clean stream Producer failures alternate between io::ErrorKind::Other and UnexpectedEof. dup=1 cases: two connections pull one stream id with a gated producer; the two replies must be next_handler's two replies (one end marker, one error). Producer failure kinds err/eof/pipe/reset/inval; ae2= (next on a finished stream id while a second stream is open must not return a chunk); 300 003 random bytes through zstd from reader producers with a 3-byte first read. conc=K cases: K (3..8) consumers, one connection each (blocking / async / WebSocket), barrier-synchronised, pull K different resources of one server over 25..40 rounds (x5 thorough); every result is judged as an ordinary pull of its own resource. park=1 cases: a request-form cancel (TCP: from a second connection; WebSocket: same connection) is acknowledged while an earlier next of that stream is parked on a producer waiting at a gate after g bytes; every next after the acknowledgement takes the place of the after-cancel response of the ordinary case. early= cases: blocking / async / WebSocket pullers whose decoder is done long before the end (wrong element type, a consumer reading a 10-byte prefix, a consumer failing without reading) on streams of 40..400 chunks from a fresh server; afterwards raw next requests for stream ids 1..3 over the same connection take the place of the after-cancel response.",
+        "rule": "real sync-TCP and WebSocket servers, one SVS producer per (kind, element type, chunk_bytes, session_depth, compression); byte producers (reader, writer): payload lengths 0..3n+1 for n in {1,2,3,7,8}, all boundary residues k*n-1, k*n, k*n+1 for n in {64, 4096} (+65536, 1 MiB thorough), depths 0..3 (quick) / 0..8 (thorough), both compressions; every split of tiny payloads into <=3 writes plus random segmentations incl. zero-length and over-long writes; failure injected at 0, 1, L and every chunk boundary +-1, each both as an io::Error returned by the body writer / reader and as a panic of that application code on the producer thread; random sleeps in producer and consumer; BEVE producers (serde value, typed arrays, complex array) around the same boundaries; pullers blocking / async / WebSocket; per case: raw peer open, next until last or error, one more next; second stream with cancel then next; pull_to_vec / pull_value / pull_typed_slice / pull_complex_slice re-encoded; for zstd the harness decompresses the pulled bodies itself; distinct = distinct case line; non-trivial = not a single-chunk clean stream Producer failures alternate between io::ErrorKind::Other and UnexpectedEof. dup=1 cases: two connections pull one stream id with a gated producer; the two replies must be next_handler's two replies (one end marker, one error). Producer failure kinds err/eof/pipe/reset/inval; ae2= (next on a finished stream id while a second stream is open must not return a chunk); 300 003 random bytes through zstd from reader producers with a 3-byte first read. conc=K cases: K (3..8) consumers, one connection each (blocking / async / WebSocket), barrier-synchronised, pull K different resources of one server over 25..40 rounds (x5 thorough); every result is judged as an ordinary pull of its own resource. park=1 cases: a request-form cancel (TCP: from a second connection; WebSocket: same connection) is acknowledged while an earlier next of that stream is parked on a producer waiting at a gate after g bytes; every next after the acknowledgement takes the place of the after-cancel response of the ordinary case. early= cases: blocking / async / WebSocket pullers whose decoder is done long before the end (wrong element type, a consumer reading a 10-byte prefix, a consumer failing without reading) on streams of 40..400 chunks from a fresh server; afterwards raw next requests for stream ids 1..3 over the same connection take the place of the after-cancel response. rel=1 cases: a high-level pull_to_vec (blocking / async / WebSocket) of a stream whose producer waits at a gate after g bytes; once the producer is parked (and lag ms later) a second connection sends request-form cancels for stream ids 1..3 (a fresh server), asks for a next of id 1 itself (the after-cancel response) and then opens the gate; at least two chunks do not exist before the acknowledgement, so the puller needs a next after the release and must report an error (judged by ok_C09 on the ordinary case whose stream breaks off after g bytes), never the prefix as a complete stream.",
         "timeout_s": {"quick": 900, "thorough": 3400},
     },
     "C04": {
